@@ -872,7 +872,7 @@ pub fn run(ctx: &Ctx) -> i32 {
         }
     }
     let mut rng = SmallRng::seed_from_u64(ctx.case_seed("lin", 0));
-    let n3 = if miri { 0 } else { ctx.n(300, 5000) };
+    let n3 = if miri { 0 } else { ctx.n(300, 1500) };
     for _ in 0..n3 {
         let init = inits[rng.gen_range(0..inits.len())];
         let nc = rng.gen_range(2..=3);
@@ -1151,7 +1151,7 @@ fn hammer(ctx: &Ctx, sh: &Shared) {
 // stress rounds with conservation monitors
 
 fn stress(ctx: &Ctx, sh: &Shared, alpha: &[A]) {
-    let rounds = ctx.n(1500, 20000);
+    let rounds = ctx.n(1500, 5000);
     let next = AtomicU64::new(0);
     let deadline = if ctx.budget_s > 0 { Some(Instant::now() + Duration::from_secs(ctx.budget_s)) } else { None };
     let workers = if cfg!(miri) { 1 } else { (ctx.workers / 4).max(1) };
